@@ -31,6 +31,11 @@ def run_one(name):
         shutil.rmtree(work, ignore_errors=True)
         out = r.stdout
         failed = [l.strip()[1:].split(': ')[0] for l in out.split('\n') if l.startswith('   [')]
+        try:
+            os.makedirs('/verif/work/fired', exist_ok=True)
+            json.dump(failed, open('/verif/work/fired/%s.json' % name, 'w'))
+        except Exception:
+            pass
         if exp.get('silent'):
             ok = r.returncode == 0
             return name, ok, 'silent as required' if ok else 'ALARM on harmless edit: ' + '; '.join(failed)
